@@ -169,6 +169,20 @@ func (s *Source) Retire(d time.Duration) {
 	time.AfterFunc(d, s.Close)
 }
 
+// Silence ends the source's part in a case and keeps its port for good: every open connection is closed,
+// remaining plans are dropped and every later connection is accepted and closed at once. For end-to-end runs,
+// whose syncer keeps a poller that must never find the port gone (see runE2E).
+func (s *Source) Silence() {
+	s.mu.Lock()
+	s.plans = nil
+	s.Default = &Plan{Refuse: true}
+	conns := append([]*Conn(nil), s.Conns...)
+	s.mu.Unlock()
+	for _, c := range conns {
+		c.c.Close()
+	}
+}
+
 func (s *Source) ConnList() []*Conn {
 	s.mu.Lock()
 	defer s.mu.Unlock()
